@@ -5,6 +5,8 @@ import GridVerif.Gen.CubicIndex
 import GridVerif.Model.CubicNp
 import GridVerif.Gen.CubicGrid
 import GridVerif.Gen.CubicCube
+import GridVerif.Model.CubicInterpNp
+import GridVerif.Gen.CubicInterp
 
 namespace GridVerif.Driver.C13
 open GridVerif.Proto GridVerif.Cubic GridVerif.Gen.CubicIndex
@@ -54,6 +56,39 @@ def lagrange4 : Interp1 Float := fun xs ys nu x =>
     if a < nu then acc else
       let fac := (List.range nu).foldl (fun f m => f * Float.ofNat (a - m)) 1.0
       acc + c.getD a 0.0 * fac * Float.pow t (Float.ofNat (a - nu))) 0.0
+
+
+/-- cell index and local coordinate of `x` on an axis with strictly monotone nodes (either direction);
+outside the nodes the first / last cell. -/
+def axisCell (nodes : List Float) (x : Float) : Nat × Float :=
+  let n := nodes.length
+  let asc := nodes.getD 0 0.0 ≤ nodes.getD (n - 1) 0.0
+  let i := (List.range (n - 1)).foldl (fun acc i =>
+    let a := nodes.getD i 0.0
+    if (if asc then x < a else x > a) then acc else i) 0
+  let a := nodes.getD i 0.0
+  let b := nodes.getD (i + 1) 0.0
+  (i, (x - a) / (b - a))
+
+/-- executable stand-in for `RegularGridInterpolator(..., method=method)`: multilinear interpolant of the cell
+holding the point (`"linear"`), value at the nearest node per axis (`"nearest"`, a tie goes to the lower index). -/
+def rgiFloat (method : String) : InterpGrid Float := fun xs ys zs vals p =>
+  let (i, tx) := axisCell xs p.1
+  let (j, ty) := axisCell ys p.2.1
+  let (k, tz) := axisCell zs p.2.2
+  if method == "nearest" then
+    let r (i : Nat) (t : Float) : Nat := if t ≤ 0.5 then i else i + 1
+    vals.getD (r i tx * (ys.length * zs.length) + r j ty * zs.length + r k tz) 0.0
+  else cellValue xs ys zs vals i j k p
+
+/-- SciPy's validation of the nodes of a `CubicSpline`: at least two, strictly increasing. -/
+def splineNodesOk (l : List Float) : Bool :=
+  decide (2 ≤ l.length) && (List.range (l.length - 1)).all fun i => l.getD i 0.0 < l.getD (i + 1) 0.0
+
+def sameJunk {α} (s : α → String) (f : Int → Py α) : String :=
+  let a := showPy s (f 0)
+  let b := showPy s (f 123456789)
+  if a != b then "junk-dependent" else a
 
 def pScheme (s : String) : Option (Option Scheme) :=
   match Scheme.ofString s with
@@ -221,6 +256,80 @@ def handle : List String → Option String
       let p := ((← pFloat x), (← pFloat y), (← pFloat z))
       pure (showPy sFloat (interpLinear multilinearCell shape pts vals p))
     | _ => none
+  -- ---- generated constructors / get_points_along_axes / interpolate (Gen/CubicInterp.lean) ----
+  | "C13.gaxes" :: rest => do
+    let (shape, tl) ← pVec pNat rest
+    let (pts, tl) ← pMat pFloat tl
+    if tl ≠ [] then none else
+    pure (sameJunk (fun (r : List (List Float)) => String.intercalate " " (toString r.length :: r.map sFloats))
+      (fun junk => Gen.CubicInterp.getPointsAlongAxes shape junk pts))
+  | "C13.ginterp" :: lg :: method :: rest => do
+    let (shape, tl) ← pVec pNat rest
+    let (pts, tl) ← pMat pFloat tl
+    let (vals, tl) ← pVec pFloat tl
+    match tl with
+    | a :: b :: c :: tl =>
+      let (nx, ny, nz) := ((← pNat a), (← pNat b), (← pNat c))
+      let (q, tl) ← pMat pFloat tl
+      if tl ≠ [] then none else
+      let ul ← (match lg with | "0" => some false | "1" => some true | _ => none)
+      let ans := sameJunk sFloats (fun junk =>
+        Gen.CubicInterp.interpolate lagrange4 rgiFloat sympyBell shape junk pts q vals ul nx ny nz method)
+      -- CubicSpline validates its nodes (the operator in here is total)
+      if method == "cubic" && ans.startsWith "ok" then
+        match Gen.CubicInterp.getPointsAlongAxes shape 0 pts with
+        | .ok nodes => if nodes.all (fun l => splineNodesOk (slice l 1 (l.length - 2))) then pure ans else pure "value-error"
+        | .error e => pure (err e)
+      else pure ans
+    | _ => none
+  | "C13.ghrinit" :: rest => do
+    let (pts, tl) ← pMat pFloat rest
+    let (w, tl) ← pVec pFloat tl
+    let (shape, tl) ← pVec pInt tl
+    if tl ≠ [] then none else
+    pure (showPy (fun (r : List (List Float) × List Float × List Int) => toString r.1.length ++ " " ++ toString r.2.1.length ++ " " ++ sInts r.2.2)
+      (Gen.CubicInterp.hyperRectangleInit pts w shape))
+  | "C13.gugrid" :: sch :: rest => do
+    let (origin, tl) ← pVec pFloat rest
+    let (axes, tl) ← pMat pFloat tl
+    let (shape, tl) ← pVec pInt tl
+    if tl ≠ [] then none else
+    let sch := if sch.startsWith "Bad" then "no such scheme" else sch
+    pure (showPy (fun (r : List (List Float) × List Float × List Int) => sMat sFloat r.1 ++ " " ++ sFloats r.2.1)
+      (Gen.CubicInterp.uniformGridInit origin axes shape sch))
+  | "C13.gtensor" :: rest => do
+    let (d, tl) ← pVec pNat rest      -- sizes of the 1-D grids (two or three)
+    let rec takeG (ds : List Nat) (tl : List String) (acc : List (List Float × List Float)) :
+        Option (List (List Float × List Float) × List String) :=
+      match ds with
+      | [] => some (acc.reverse, tl)
+      | _ :: ds => do
+        let (p, tl) ← pVec pFloat tl
+        let (w, tl) ← pVec pFloat tl
+        takeG ds tl ((p, w) :: acc)
+    let (gs, tl) ← takeG d tl []
+    if tl ≠ [] then none else
+    match gs with
+    | [gx, gy] => pure (showPy (fun (r : List (List Float) × List Float × List Int) => sMat sFloat r.1 ++ " " ++ sFloats r.2.1 ++ " " ++ sInts r.2.2)
+        (Gen.CubicInterp.tensor1DInit gx gy none))
+    | [gx, gy, gz] => pure (showPy (fun (r : List (List Float) × List Float × List Int) => sMat sFloat r.1 ++ " " ++ sFloats r.2.1 ++ " " ++ sInts r.2.2)
+        (Gen.CubicInterp.tensor1DInit gx gy (some gz)))
+    | _ => none
+  | "C13.gorigin" :: rest => do
+    let (pts, tl) ← pMat pFloat rest
+    if tl ≠ [] then none else
+    pure (showPy sFloats (Gen.CubicInterp.tensorOrigin pts))
+  | "C13.gbell" :: n :: k :: rest => do
+    let n ← pNat n
+    let k ← pNat k
+    let (g, tl) ← pVec pFloat rest
+    if tl ≠ [] then none else
+    pure ("ok " ++ sFloat (sympyBell n k g))
+  | ["C13.gdefaults"] =>
+    let d := Gen.CubicInterp.interpolateDefaults
+    let m : Float × Float × Bool × String := Gen.CubicInterp.fromMoleculeDefaults
+    pure ("ok " ++ toString d.1 ++ " " ++ toString d.2.1 ++ " " ++ toString d.2.2.1 ++ " " ++ toString d.2.2.2.1 ++ " " ++ d.2.2.2.2
+      ++ " " ++ sFloat m.1 ++ " " ++ sFloat m.2.1 ++ " " ++ toString m.2.2.1 ++ " " ++ m.2.2.2)
   | "C13.cube_units" :: _ => pure ("ok " ++ Gen.CubicCube.summary)
   | _ => none
 
